@@ -1,17 +1,210 @@
 import CuqiVerif.Model.C05
+import CuqiVerif.Proofs.RExpr
+import CuqiVerif.Proofs.C05
 import Mathlib.Data.Matrix.Basic
 import Mathlib.LinearAlgebra.Matrix.NonsingularInverse
+import Mathlib.Probability.Distributions.Gaussian.Real
+import Mathlib.Probability.Distributions.Gamma
+import Mathlib.Probability.Distributions.Cauchy
+import Mathlib.Analysis.SpecialFunctions.Pow.Real
+import Mathlib.Tactic.LinearCombination
 
 /-!
-# C05 — direct samples follow the density and the given random stream
+# C05 — direct samples follow the distribution's own density and the given random stream
+
+Part A: theorems about the executable definitions the driver runs (`fwdXs`, `gaussPerturb`,
+`diagSqrtprec`, `wrap`/`sampleShape`, `plumb`, `mhnRead`).
+Part B: generic matrix identities (any field, any size) of which the rational model is an instance:
+covariance of the Gaussian / GMRF draws.
+Part C: the log-density formulas of the model (`RExpr`s, evaluated over ℝ) against the documented law of
+the generator call the code makes.
+Part D: the ModifiedHalfNormal rejection identities for the coded proposals and bounds.
 -/
 namespace CuqiVerif.C05
+open CuqiVerif RExpr Real Matrix Finset
 
-open Matrix
+/-! ## Part A — executable definitions -/
+/-- **Forward substitution solves the lower-triangular system** (any size `n`): if `L i j = 0` above the
+diagonal and the diagonal is non-zero, the values `fwdX` satisfy every equation `∑ⱼ L i j xⱼ = bᵢ`. -/
+theorem fwd_solves (L : ℕ → ℕ → ℚ) (b : ℕ → ℚ) (n : ℕ)
+    (hlow : ∀ i j, i < n → j < n → i < j → L i j = 0) (hdiag : ∀ i, i < n → L i i ≠ 0) :
+    ∀ i, i < n → ∑ j ∈ Finset.range n, L i j * fwdX L b j = b i := by
+  intro i hi
+  have hsplit : ∑ j ∈ Finset.range n, L i j * fwdX L b j
+      = ∑ j ∈ Finset.range (i + 1), L i j * fwdX L b j := by
+    have hsub : Finset.range (i + 1) ⊆ Finset.range n := by
+      intro j hj; rw [Finset.mem_range] at *; omega
+    symm
+    apply Finset.sum_subset hsub
+    intro j hj hnj
+    rw [Finset.mem_range] at hj hnj
+    rw [hlow i j hi hj (by omega), zero_mul]
+  rw [hsplit, Finset.sum_range_succ, fwdX_eq L b i]
+  field_simp [hdiag i hi]
+  ring
+
+/-- the same statement for what the executable `fwdXs` list holds -/
+theorem fwdXs_solves (L : ℕ → ℕ → ℚ) (b : ℕ → ℚ) (n : ℕ)
+    (hlow : ∀ i j, i < n → j < n → i < j → L i j = 0) (hdiag : ∀ i, i < n → L i i ≠ 0) :
+    ∀ i, i < n → ∑ j ∈ Finset.range n, L i j * (fwdXs L b n).getD j 0 = b i := by
+  intro i hi
+  rw [← fwd_solves L b n hlow hdiag i hi]
+  apply Finset.sum_congr rfl
+  intro j hj
+  rw [Finset.mem_range] at hj
+  rw [fwdXs_getD L b n j hj]
+
+/-- non-vacuity: a 3×3 lower-triangular, non-diagonal system -/
+example : fwdXs (fun i j => QMat.entry [[2, 0, 0], [1, 4, 0], [-1, 1, 1/2]] i j) (fun i => [2, 1, 0].getD i 0) 3 = [1, 0, 2] := by
+  decide +kernel
+
+/-- **Witness for the repaired defect (DESIGN §5 #9)**: solving a lower-triangular, non-diagonal `sqrtprec`
+with the *upper* triangle (what `solve_triangular(lower=False)` reads: the diagonal only) does not solve
+the system, while the forward substitution of the repaired code does. -/
+theorem diagOnly_not_a_solution :
+    QMat.mulVec [[1, 0], [1, 1]] (diagOnlySolve [[1, 0], [1, 1]] [1, 0]) ≠ [1, 0]
+    ∧ gaussPerturb false [[1, 0], [1, 1]] [1, 0] = some [1, -1]
+    ∧ QMat.mulVec [[1, 0], [1, 1]] [1, -1] = [1, 0] := by
+  decide +kernel
+
+/-- Solver selection: a dense lower-triangular `sqrtprec` goes to the triangular solver, a sparse one to
+`spsolve`, anything else to `solve`. -/
+theorem solverOf_cases (sp : Bool) (R : QMat.Mat) :
+    solverOf sp R = (if sp then Solver.sparse else if isLowerTri R then Solver.triLower else Solver.dense) := rfl
+
+/-- **`spsolve` / `solve` branch**: whenever the model produces a perturbation it satisfies the defining
+relation `sqrtprec · p = e` (the elimination is untrusted; its result is checked). -/
+theorem gaussPerturb_solves (sp : Bool) (R : QMat.Mat) (e p : QMat.Vec)
+    (hs : solverOf sp R ≠ Solver.triLower) (h : gaussPerturb sp R e = some p) : QMat.mulVec R p = e := by
+  unfold gaussPerturb at h
+  cases hsol : solverOf sp R with
+  | triLower => exact absurd hsol hs
+  | sparse =>
+    rw [hsol] at h
+    cases hq : QMat.solve R e with
+    | none => simp [hq] at h
+    | some p' =>
+      simp only [hq] at h
+      by_cases hc : QMat.solves R p' e = true
+      · simp only [hc, if_true, Option.some.injEq] at h
+        subst h
+        simpa [QMat.solves] using hc
+      · simp [hc] at h
+  | dense =>
+    rw [hsol] at h
+    cases hq : QMat.solve R e with
+    | none => simp [hq] at h
+    | some p' =>
+      simp only [hq] at h
+      by_cases hc : QMat.solves R p' e = true
+      · simp only [hc, if_true, Option.some.injEq] at h
+        subst h
+        simpa [QMat.solves] using hc
+      · simp [hc] at h
+
+/-- **triangular branch**: the model's perturbation is the forward-substitution list, which solves the
+system row by row when `R` is lower triangular (`fwdXs_solves`). -/
+theorem gaussPerturb_tri (sp : Bool) (R : QMat.Mat) (e p : QMat.Vec)
+    (hs : solverOf sp R = Solver.triLower) (h : gaussPerturb sp R e = some p) :
+    p = fwdXs (QMat.entry R) (fun i => e.getD i 0) R.length := by
+  unfold gaussPerturb at h
+  rw [hs] at h
+  by_cases hc : ((List.range R.length).any fun i => QMat.entry R i i == 0) = true
+  · simp [hc] at h
+  · simp only [hc] at h
+    simpa using h.symm
+
+/-- **A draw is affine in the normal vector with offset the mean**: `sample = mean + perturbation`. -/
+theorem gaussSample_eq (sp : Bool) (mean : QMat.Vec) (R : QMat.Mat) (e : QMat.Vec) :
+    gaussSample sp mean R e = (gaussPerturb sp R e).map (fun p => QMat.vadd (bcast R.length mean) p) := rfl
+
+
+
+/-- **Every scalar / vector / diagonal parameterisation stores a square root of the precision its own
+log-density uses**: the stored diagonal entry `r` satisfies `r² = 1/var`, `prec`, `1/std²`, `sqrtprec²`. -/
+theorem diagSqrtprec_sq (f : Form) (v r : ℚ) (h : diagSqrtprec f v = some r) : r * r = diagPrecision f v := by
+  cases f with
+  | cov =>
+    simp only [diagSqrtprec] at h
+    by_cases hv : v = 0
+    · simp [hv] at h
+    · simp only [hv, if_false] at h
+      simpa [diagPrecision] using sqrtQ?_sq _ _ h
+  | prec => simpa [diagPrecision, diagSqrtprec] using sqrtQ?_sq _ _ h
+  | sqrtcov =>
+    simp only [diagSqrtprec] at h
+    by_cases hv : v = 0
+    · simp [hv] at h
+    · simp only [hv, if_false, Option.some.injEq] at h
+      subst h
+      simp only [diagPrecision]; field_simp
+  | sqrtprec =>
+    simp only [diagSqrtprec, Option.some.injEq] at h
+    subst h; rfl
+
+example : diagSqrtprec .cov (1/4) = some 2 ∧ diagPrecision .cov (1/4) = 4 := by decide +kernel
+
+/-! ### wrapping and refusal -/
+
+/-- **A conditional distribution refuses to sample**, whatever `_sample` would return. -/
+theorem cond_refuses (N : ℕ) (raw : Raw) : wrap true N raw = .refused := rfl
+
+theorem cond_refuses_family (fam : Family) (dim N : ℕ) : sampleShape fam true dim N = .refused := rfl
+
+/-- once nothing is missing the result is never a refusal -/
+theorem uncond_samples (N : ℕ) (raw : Raw) : wrap false N raw ≠ .refused := by
+  unfold wrap
+  simp only [Bool.false_eq_true, if_false]
+  split_ifs <;> simp
+
+/-- **One draw is an array with `dim` entries** (a 0-d array when `dim = 1`), for every family and
+boundary condition except a single Neumann / periodic GMRF draw. -/
+theorem wrap_single_draw (fam : Family) (dim : ℕ) (hmhn : fam = .mhn → dim = 1)
+    (hreg : fam ≠ .gmrfNeumann ∧ fam ≠ .gmrfPeriodic) :
+    sampleShape fam false dim 1 = (if dim = 1 then .scalar else .array dim) := by
+  obtain ⟨h1, h2⟩ := hreg
+  cases fam <;> simp_all [sampleShape, rawShape, wrap, Raw.len, Raw.size]
+
+/-- **Several draws are a sample collection with one column per draw**: `N` columns, `dim` parameters each. -/
+theorem wrap_many_draws (fam : Family) (dim N : ℕ) (hN : N ≠ 1) (hmhn : fam = .mhn → dim = 1) :
+    ∃ raw, sampleShape fam false dim N = .samples raw ∧ raw.ns = N ∧ raw.perDraw = dim := by
+  cases fam <;> simp_all [sampleShape, rawShape, wrap, Raw.ns, Raw.perDraw]
+
+/-- **Known finding (GMRF, one draw, Neumann / periodic)**: the code-faithful model returns `dim²` entries. -/
+theorem wrap_gmrf_single_draw_counterexample :
+    sampleShape .gmrfNeumann false 5 1 = .array 25 ∧ sampleShape .gmrfPeriodic false 5 1 = .array 25
+    ∧ sampleShape .gmrfZero false 5 1 = .array 5 := by decide
+
+/-! ### plumbing -/
+
+/-- **The generator receives the tuple the density uses**: for the laws whose density is delegated to
+scipy (`Gamma`: `a=shape, scale=1/rate`; `InverseGamma`: `a, loc, scale`; `Beta`: `a, b`) the parameter
+tuple of the random call and of the `logpdf` call coincide. -/
+theorem plumb_density_same_tuple (fam : Family) (ps : List QMat.Vec) (dim N : ℕ) (t : List QMat.Vec)
+    (h : densityTuple fam ps = some t) : ∃ c, plumb fam ps dim N = some c ∧ c.args = t ∧ c.size = (N, dim) := by
+  unfold densityTuple at h
+  split at h
+  · split_ifs at h with hr
+    simp only [Option.some.injEq] at h
+    exact ⟨_, by simp only [plumb, hr]; rfl, h, rfl⟩
+  · simp only [Option.some.injEq] at h
+    exact ⟨_, rfl, h, rfl⟩
+  · simp only [Option.some.injEq] at h
+    exact ⟨_, rfl, h, rfl⟩
+  · simp at h
+
+/-- **Known finding (ModifiedHalfNormal getters)**: what reaches `_sample` (and `logpdf`) does not depend on
+the `beta` and `gamma` the object was built with. -/
+theorem mhnRead_ignores_beta_gamma (α β γ β' γ' : ℚ) : mhnRead α β γ = mhnRead α β' γ' := rfl
+
+theorem mhnRead_counterexample : mhnRead 2 3 1 ≠ (2, 3, 1) := by decide +kernel
+
+
+/-! ## Part B — covariance of Gaussian and GMRF draws -/
 
 /-- **Covariance of a Gaussian draw.**  If the perturbation is `B e` with `R B = 1` (what any of the
-three solvers computes), then `B Bᵀ` is the inverse of the precision `Rᵀ R` the log-density uses —
-for every square `R`, symmetric or not, triangular or not. -/
+three solvers computes, see `fwdXs_solves`, `gaussPerturb_solves`), then `B Bᵀ` is the inverse of the
+precision `Rᵀ R` the log-density uses — for every square `R`: symmetric or not, triangular or not. -/
 theorem gauss_cov_eq_inv_precision {n : Type*} [Fintype n] [DecidableEq n] {K : Type*} [Field K]
     (R B : Matrix n n K) (h : R * B = 1) : (B * Bᵀ) * (Rᵀ * R) = 1 ∧ (Rᵀ * R) * (B * Bᵀ) = 1 := by
   have h' : B * R = 1 := mul_eq_one_comm.mp h
@@ -22,5 +215,286 @@ theorem gauss_cov_eq_inv_precision {n : Type*} [Fintype n] [DecidableEq n] {K : 
       _ = 1 := by rw [ht, Matrix.mul_one, h']
   · calc Rᵀ * R * (B * Bᵀ) = Rᵀ * (R * B) * Bᵀ := by simp only [Matrix.mul_assoc]
       _ = 1 := by rw [h, Matrix.mul_one, ht']
+
+/-- non-vacuity: a lower-triangular, non-symmetric square root -/
+example : (!![1, 0; 1, 1] : Matrix (Fin 2) (Fin 2) ℚ) * !![1, 0; -1, 1] = 1 := by
+  ext i j; fin_cases i <;> fin_cases j <;> simp [Matrix.mul_apply, Fin.sum_univ_two]
+
+
+section MatrixFacts
+variable {n m : Type*} [Fintype n] [DecidableEq n] [Fintype m] {K : Type*} [Field K]
+
+/-- **GMRF, zero boundary condition**: the draw is `mean + c·U⁻¹ξ` with `Uᵀ U = P` (`U = chol.T`) and
+`c = 1/√δ` (`c² δ = 1`); its covariance `(cB)(cB)ᵀ` is the inverse of the precision `δ P` of the log-density. -/
+theorem gmrf_zero_cov (U B P : Matrix n n K) (c δ : K) (hUB : U * B = 1) (hP : Uᵀ * U = P) (hc : c * c * δ = 1) :
+    ((c • B) * (c • B)ᵀ) * (δ • P) = 1 := by
+  have h' : B * U = 1 := mul_eq_one_comm.mp hUB
+  have ht : Bᵀ * Uᵀ = 1 := by rw [← transpose_mul, hUB, transpose_one]
+  rw [transpose_smul, ← hP]
+  simp only [Matrix.smul_mul, Matrix.mul_smul, smul_smul]
+  have : B * Bᵀ * (Uᵀ * U) = 1 := by
+    calc B * Bᵀ * (Uᵀ * U) = B * (Bᵀ * Uᵀ) * U := by simp only [Matrix.mul_assoc]
+      _ = 1 := by rw [ht, Matrix.mul_one, h']
+  rw [this]
+  convert one_smul K (1 : Matrix n n K) using 2
+  linear_combination hc
+
+/-- **Neumann: the two sparse solves are one solve with `C Cᵀ`**:
+`spsolve(chol.T, spsolve(chol, v)) = (C Cᵀ)⁻¹ v`. -/
+theorem neumann_two_solves (C Ci : Matrix n n K) (h : C * Ci = 1) : (Ciᵀ * Ci) * (C * Cᵀ) = 1 := by
+  have h' : Ci * C = 1 := mul_eq_one_comm.mp h
+  have ht : Cᵀ * Ciᵀ = 1 := by rw [← transpose_mul, h', transpose_one]
+  have ht' : Ciᵀ * Cᵀ = 1 := by rw [← transpose_mul, h, transpose_one]
+  calc Ciᵀ * Ci * (C * Cᵀ) = Ciᵀ * (Ci * C) * Cᵀ := by simp only [Matrix.mul_assoc]
+    _ = 1 := by rw [h', Matrix.mul_one, ht']
+
+/-- **GMRF, Neumann boundary condition, exact covariance with the explicit ε-perturbation.**
+With `P = DᵀD` (singular), `M = P + ε·1`, `M Mi = 1`, the draw is `mean + c·Mi Dᵀ ξ`; its covariance
+`B Bᵀ`, `B = Mi Dᵀ`, satisfies `P (B Bᵀ) P = (1 - ε Mi)² P` — the pseudo-inverse would give `P`; the
+deviation is the factor `(1 - ε Mi)²`, `ε = √eps = 2⁻²⁶`. -/
+theorem gmrf_neumann_cov (D : Matrix m n K) (P Mi : Matrix n n K) (ε : K)
+    (hP : Dᵀ * D = P) (hM : (P + ε • (1 : Matrix n n K)) * Mi = 1) :
+    let B := Mi * Dᵀ
+    B * Bᵀ = Mi * P * Miᵀ ∧ P * (B * Bᵀ) * P = (1 - ε • Mi) * (1 - ε • Mi) * P := by
+  intro B
+  have hM' : Mi * (P + ε • (1 : Matrix n n K)) = 1 := mul_eq_one_comm.mp hM
+  have hPsymm : Pᵀ = P := by rw [← hP, transpose_mul, transpose_transpose]
+  have hMit : Miᵀ = Mi := by
+    have h1 : Miᵀ * (P + ε • (1 : Matrix n n K)) = 1 := by
+      have := congrArg transpose hM
+      rw [transpose_mul, transpose_add, transpose_smul, transpose_one, hPsymm] at this
+      exact this
+    calc Miᵀ = Miᵀ * ((P + ε • (1 : Matrix n n K)) * Mi) := by rw [hM, Matrix.mul_one]
+      _ = (Miᵀ * (P + ε • (1 : Matrix n n K))) * Mi := by rw [Matrix.mul_assoc]
+      _ = Mi := by rw [h1, Matrix.one_mul]
+  have hPMi : P * Mi = 1 - ε • Mi := by
+    have := hM
+    rw [Matrix.add_mul, Matrix.smul_mul, Matrix.one_mul] at this
+    exact eq_sub_of_add_eq this
+  have hMiP : Mi * P = 1 - ε • Mi := by
+    have := hM'
+    rw [Matrix.mul_add, Matrix.mul_smul, Matrix.mul_one] at this
+    exact eq_sub_of_add_eq this
+  have hBB : B * Bᵀ = Mi * P * Miᵀ := by
+    show Mi * Dᵀ * (Mi * Dᵀ)ᵀ = _
+    rw [transpose_mul, transpose_transpose, ← hP]
+    simp only [Matrix.mul_assoc]
+  refine ⟨hBB, ?_⟩
+  rw [hBB, hMit]
+  calc P * (Mi * P * Mi) * P = (P * Mi) * P * (Mi * P) := by simp only [Matrix.mul_assoc]
+    _ = (1 - ε • Mi) * P * (1 - ε • Mi) := by rw [hPMi, hMiP]
+    _ = (1 - ε • Mi) * (P * (1 - ε • Mi)) := by rw [Matrix.mul_assoc]
+    _ = (1 - ε • Mi) * ((1 - ε • Mi) * P) := by
+        congr 1
+        rw [Matrix.mul_sub, Matrix.sub_mul, Matrix.mul_one, Matrix.one_mul, Matrix.mul_smul, Matrix.smul_mul, hPMi, hMiP]
+    _ = (1 - ε • Mi) * (1 - ε • Mi) * P := by rw [Matrix.mul_assoc]
+
+end MatrixFacts
+
+/-- eigenvalue-wise size of the Neumann perturbation: on an eigen-direction of `P` with eigenvalue `l > 0`
+the draw has variance `l/(l+ε)²` instead of `1/l`; the defect is between `0` and `2ε/l²`. -/
+theorem neumann_eig_bound (l ε : ℝ) (hl : 0 < l) (hε : 0 < ε) :
+    0 ≤ 1 / l - l / (l + ε) ^ 2 ∧ 1 / l - l / (l + ε) ^ 2 ≤ 2 * ε / l ^ 2 := by
+  have h1 : 0 < l + ε := by linarith
+  have key : 1 / l - l / (l + ε) ^ 2 = (2 * l * ε + ε ^ 2) / (l * (l + ε) ^ 2) := by
+    field_simp; ring
+  rw [key]
+  constructor
+  · positivity
+  · rw [div_le_div_iff₀ (by positivity) (by positivity)]
+    nlinarith [mul_pos hl hε, mul_pos (mul_pos hl hl) hε, mul_pos (mul_pos hl hε) hε, mul_pos (mul_pos hε hε) hε,
+      mul_pos (mul_pos (mul_pos hl hl) hl) hε, mul_pos (mul_pos (mul_pos hl hl) hε) hε, mul_pos (mul_pos (mul_pos hl hε) hε) hε]
+
+
+/-! ## Part C — generator law vs. reported density -/
+
+
+/-- **Normal: `rng.normal(mean, std)` has the density `Normal.logpdf` reports.**  The documented law of the
+call is `N(mean, std²)` (Mathlib's `gaussianPDFReal`). -/
+theorem normal_plumbing_eq_density (x m s : ℝ) (hs : 0 < s) :
+    Real.exp (eval (env4 x m s 0) (normalLogpdf (var 0) (var 1) (var 2)))
+      = ProbabilityTheory.gaussianPDFReal m (Real.toNNReal (s ^ 2)) x := by
+  have h2 : (0:ℝ) < 2 * π := by positivity
+  have hsq : √(2 * π * s ^ 2) = s * √(2 * π) := by
+    rw [Real.sqrt_mul h2.le, Real.sqrt_sq hs.le, mul_comm]
+  simp only [ProbabilityTheory.gaussianPDFReal, Real.coe_toNNReal _ (sq_nonneg s), hsq]
+  simp [normalLogpdf]
+  rw [sub_eq_add_neg, Real.exp_add, Real.exp_neg, Real.exp_log (by positivity)]
+  congr 2
+  field_simp
+  ring
+
+/-- **Gaussian in dimension 1 with stored `sqrtprec = r`**: the draw `mean + ξ/r` (`ξ` standard normal) is
+`N(mean, 1/r²)`, whose density is `exp (Gaussian.logpdf)`. -/
+theorem gauss1_plumbing_eq_density (x m r : ℝ) (hr : 0 < r) :
+    Real.exp (eval (env4 x m r 0) (gauss1Logpdf (var 0) (var 1) (var 2)))
+      = ProbabilityTheory.gaussianPDFReal m (Real.toNNReal (1 / r ^ 2)) x := by
+  have h2 : (0:ℝ) < 2 * π := by positivity
+  have hr2 : (0:ℝ) < r ^ 2 := by positivity
+  have hsq : √(2 * π * (1 / r ^ 2)) = √(2 * π) / r := by
+    rw [Real.sqrt_mul h2.le, one_div, Real.sqrt_inv, Real.sqrt_sq hr.le]; ring
+  simp only [ProbabilityTheory.gaussianPDFReal, Real.coe_toNNReal _ (by positivity : (0:ℝ) ≤ 1 / r ^ 2), hsq]
+  simp [gauss1Logpdf]
+  rw [sub_eq_add_neg, Real.exp_add]
+  congr 1
+  · rw [show -(2⁻¹ * (Real.log (2 * π) + -(2 * Real.log r))) = Real.log (r / √(2 * π)) by
+      rw [Real.log_div hr.ne' (by positivity), Real.log_sqrt h2.le]; ring]
+    rw [Real.exp_log (by positivity), Real.sqrt_mul (by norm_num : (0:ℝ) ≤ 2)]
+  · congr 1
+    field_simp
+
+/-- **Laplace: `rng.laplace(location, scale)`** — numpy's documented density `exp(-|x-μ|/b)/(2b)` is
+`exp (Laplace.logpdf)`. -/
+theorem laplace_plumbing_eq_density (x l b : ℝ) (hb : 0 < b) :
+    Real.exp (eval (env4 x l b 0) (laplaceLogpdf (var 0) (var 1) (var 2)))
+      = 1 / (2 * b) * Real.exp (-|x - l| / b) := by
+  simp [laplaceLogpdf]
+  rw [sub_eq_add_neg, Real.exp_add, Real.exp_log (by positivity)]
+  congr 1
+  · field_simp
+  · congr 1; ring
+
+/-- **Uniform: `rng.uniform(low, high)`** — the documented density `1/(high-low)` on the interval is
+`exp (Uniform.logpdf)` there. -/
+theorem uniform_plumbing_eq_density (lo hi : ℝ) (h : lo < hi) :
+    Real.exp (eval (env4 0 lo hi 0) (uniformLogpdf (var 1) (var 2))) = 1 / (hi - lo) := by
+  have : 0 < hi - lo := sub_pos.mpr h
+  simp [uniformLogpdf]
+  rw [Real.exp_neg, Real.exp_log this]
+
+/-- **Cauchy: `location + scale · C`, `C` standard Cauchy** has density Mathlib's `cauchyPDFReal location scale`,
+which is `exp (Cauchy.logpdf)`. -/
+theorem cauchy_plumbing_eq_density (x l s : ℝ) (hs : 0 < s) :
+    Real.exp (eval (env4 x l s 0) (cauchyLogpdf (var 0) (var 1) (var 2)))
+      = ProbabilityTheory.cauchyPDFReal l (Real.toNNReal s) x := by
+  simp only [ProbabilityTheory.cauchyPDFReal, Real.coe_toNNReal _ hs.le]
+  have hpos : 0 < π * s * (1 + ((x - l) / s) ^ 2) := by positivity
+  have h1 : (x - l) ^ 2 + s ^ 2 ≠ 0 := by positivity
+  simp [cauchyLogpdf]
+  rw [Real.exp_neg, Real.exp_log hpos]
+  field_simp
+  ring
+
+/-- **Gamma: `rng.gamma(shape, scale=1/rate)`** is the Gamma law with that shape and *rate*
+(Mathlib's `gammaPDFReal shape rate`) — the conversion `scale = 1/rate` made by the code is the right one. -/
+theorem gamma_plumbing_eq_density (k r x : ℝ) (hk : 0 < k) (hr : 0 < r) (hx : 0 ≤ x) :
+    numpyGammaPdf k (1 / r) x = ProbabilityTheory.gammaPDFReal k r x := by
+  unfold numpyGammaPdf ProbabilityTheory.gammaPDFReal
+  rw [if_pos hx]
+  have hG : 0 < Real.Gamma k := Real.Gamma_pos_of_pos hk
+  have hrk : 0 < r ^ k := Real.rpow_pos_of_pos hr k
+  rw [one_div, Real.inv_rpow hr.le]
+  rw [show -x / r⁻¹ = -(r * x) by field_simp]
+  field_simp
+
+
+/-! ## Part D — ModifiedHalfNormal rejection loops -/
+
+
+/-- **sqrt-gamma proposal, rejection identity.**  `T ~ gamma(α/2, scale 1/δ)`, `X = √T` has density
+`∝ x^(α-1) exp(-δ x²)`; multiplied by `exp` of the coded log-acceptance bound (at `T = x²`) it is a constant
+times the MHN density `x^(α-1) exp(-β x² + γ x)`: accepted draws follow the target. -/
+theorem mhn_gamma_proposal_identity (x α β γ : ℝ) (hx : 0 < x) :
+    x ^ (α - 1) * Real.exp (-(mhnDelta α β γ) * x ^ 2)
+        * Real.exp (eval (env4 (x ^ 2) α β γ) (Mhn.gpAccept (var 1) (var 2) (var 3) (var 0)))
+      = Real.exp (-(γ * γ / (4 * (β - mhnDelta α β γ)))) * (x ^ (α - 1) * Real.exp (-β * x ^ 2 + γ * x)) := by
+  have hd := delta_indep (x ^ 2) α β γ
+  simp only [Mhn.gpAccept, eval_sub, eval_add, eval_mul, eval_neg, eval_div, eval_var, env4_0, env4_1, env4_2, env4_3, hd]
+  simp only [eval, Real.sqrt_sq hx.le]
+  rw [mul_assoc, ← Real.exp_add, mul_left_comm, ← Real.exp_add]
+  congr 2
+  simp
+  rw [Real.sqrt_sq hx.le]
+  ring
+
+/-- the coded bound of the sqrt-gamma proposal is a genuine log-probability (`≤ 0`) whenever `δ < β` -/
+theorem mhn_gamma_bound_nonpos (t α β γ : ℝ) (ht : 0 ≤ t) (hδ : mhnDelta α β γ < β) :
+    eval (env4 t α β γ) (Mhn.gpAccept (var 1) (var 2) (var 3) (var 0)) ≤ 0 := by
+  obtain ⟨s, hs0, rfl⟩ : ∃ s, 0 ≤ s ∧ t = s * s := ⟨√t, Real.sqrt_nonneg t, (Real.mul_self_sqrt ht).symm⟩
+  have hd := delta_indep (s * s) α β γ
+  simp only [Mhn.gpAccept, eval_sub, eval_add, eval_mul, eval_neg, eval_div, eval_var, env4_0, env4_2, env4_3, hd]
+  simp only [eval, Real.sqrt_mul_self hs0]
+  set d := mhnDelta α β γ
+  have hpos : 0 < β - d := sub_pos.mpr hδ
+  norm_num
+  rw [Real.sqrt_mul_self hs0, le_div_iff₀ (by positivity)]
+  nlinarith [sq_nonneg (2 * (β - d) * s - γ)]
+
+/-- **normal proposal: the coded bound vs. the bound of the published algorithm.**  The code has
+`(α-1)·log X - log μ + …` where the algorithm has `(α-1)·log(X/μ) + …`; the difference is the constant
+`(α-2)·log μ`. -/
+theorem mhn_normal_bound_excess (x α β γ : ℝ) (hx : 0 < x) (hμ : 0 < mhnMu α β γ) :
+    eval (env4 x α β γ) (Mhn.npAccept (var 1) (var 2) (var 3) (var 0))
+      = ((α - 1) * Real.log (x / mhnMu α β γ) + (2 * β * mhnMu α β γ - γ) * (mhnMu α β γ - x))
+        + (α - 2) * Real.log (mhnMu α β γ) := by
+  have hm := mu_indep x α β γ
+  simp only [Mhn.npAccept, eval_sub, eval_add, eval_mul, eval_neg, eval_div, eval_var, env4_0, env4_1, env4_2, env4_3, hm]
+  simp only [eval, hm]
+  rw [Real.log_div hx.ne' hμ.ne']
+  norm_num
+  ring
+
+/-- **normal proposal, rejection identity for the published bound**: `N(μ, 1/(2β))` density
+`∝ exp(-β(x-μ)²)` times `exp((α-1) log(x/μ) + (2βμ-γ)(μ-x))` is a constant times the MHN density. -/
+theorem mhn_normal_proposal_identity (x α β γ μ : ℝ) (hx : 0 < x) (hμ : 0 < μ) :
+    Real.exp (-β * (x - μ) ^ 2) * Real.exp ((α - 1) * Real.log (x / μ) + (2 * β * μ - γ) * (μ - x))
+      = Real.exp (β * μ ^ 2 - γ * μ - (α - 1) * Real.log μ) * (x ^ (α - 1) * Real.exp (-β * x ^ 2 + γ * x)) := by
+  rw [Real.rpow_def_of_pos hx, ← Real.exp_add, ← Real.exp_add, ← Real.exp_add, Real.log_div hx.ne' hμ.ne']
+  congr 1
+  ring
+
+/-- **Known finding (latent): the coded normal-proposal bound is positive at the matching point**:
+at `X = μ` it equals `(α-2)·log μ`, which is `> 0` whenever `α > 2` and `μ > 1` — the "acceptance
+probability" `exp(bound)` exceeds 1 there, so the accepted draws follow `proposal·min(1, ratio)`. -/
+theorem mhn_normal_bound_positive_counterexample (α β γ : ℝ) (hα : 2 < α) (hμ : 1 < mhnMu α β γ) :
+    0 < eval (env4 (mhnMu α β γ) α β γ) (Mhn.npAccept (var 1) (var 2) (var 3) (var 0)) := by
+  have h0 : 0 < mhnMu α β γ := by linarith
+  rw [mhn_normal_bound_excess _ α β γ h0 h0, div_self h0.ne', Real.log_one]
+  have : 0 < Real.log (mhnMu α β γ) := Real.log_pos hμ
+  have : 0 < (α - 2) * Real.log (mhnMu α β γ) := mul_pos (by linarith) this
+  nlinarith
+
+/-- the hypotheses of the counterexample are satisfiable: `α = 3, β = 1, γ = 4` gives `μ = 1 + √2 > 1` -/
+theorem mhn_normal_bound_positive_instance : 1 < mhnMu 3 1 4 := by
+  simp only [mhnMu, Mhn.mu, eval_div, eval_add, eval_mul, eval_sub, eval_var, env4_1, env4_2, env4_3]
+  simp only [eval]
+  norm_num
+  have h : (4:ℝ) < √32 := by
+    rw [show (4:ℝ) = √16 by rw [show (16:ℝ) = 4 ^ 2 by norm_num, Real.sqrt_sq (by norm_num)]]
+    exact Real.sqrt_lt_sqrt (by norm_num) (by norm_num)
+  linarith
+
+/-- **Algorithm 3 (`γ ≤ 0`), rejection identity**: with `X = m·T^{v₁}` the factor `exp(-v₂ T)` of the gamma
+proposal times `exp` of the coded bound `v₂ T - β X² + γ X` is exactly `exp(-β X² + γ X)`. -/
+theorem mhn_neg_gamma_identity (t m β γ : ℝ) :
+    let ρ := env4 t m β γ
+    Real.exp (-(eval ρ (Mhn.ngVal2 (var 2) (var 3) (var 1))) * t)
+        * Real.exp (eval ρ (Mhn.ngAccept (var 2) (var 3) (var 1) (var 0)))
+      = Real.exp (-β * (eval ρ (Mhn.ngX (var 2) (var 3) (var 1) (var 0))) ^ 2
+                  + γ * eval ρ (Mhn.ngX (var 2) (var 3) (var 1) (var 0))) := by
+  intro ρ
+  rw [← Real.exp_add]
+  congr 1
+  simp only [Mhn.ngAccept, eval_sub, eval_add, eval_mul, eval_var]
+  simp only [ρ, env4_0, env4_2, env4_3]
+  ring
+
+
+/-! ## non-vacuity of the hypotheses -/
+example := neumann_eig_bound 2 (1 / 67108864) (by norm_num) (by norm_num)
+example := normal_plumbing_eq_density (1 / 2) 1 2 (by norm_num)
+example := gauss1_plumbing_eq_density (1 / 2) 1 2 (by norm_num)
+example := laplace_plumbing_eq_density 0 1 2 (by norm_num)
+example := uniform_plumbing_eq_density 1 3 (by norm_num)
+example := cauchy_plumbing_eq_density 0 1 2 (by norm_num)
+example := gamma_plumbing_eq_density 2 4 1 (by norm_num) (by norm_num) (by norm_num)
+example := mhn_gamma_proposal_identity 1 2 2 2 (by norm_num)
+example := mhn_normal_proposal_identity 1 3 1 4 2 (by norm_num) (by norm_num)
+example := mhn_normal_bound_positive_counterexample 3 1 4 (by norm_num) mhn_normal_bound_positive_instance
+example := wrap_single_draw .gaussian 5 (by simp) (by simp)
+example := wrap_many_draws .gmrfNeumann 5 3 (by norm_num) (by simp)
+example : (!![2] : Matrix (Fin 1) (Fin 1) ℚ) * !![1 / 2] = 1 ∧ (!![2] : Matrix (Fin 1) (Fin 1) ℚ)ᵀ * !![2] = !![4] ∧ (1 / 2 : ℚ) * (1 / 2) * 4 = 1 := by
+  refine ⟨?_, ?_, by norm_num⟩ <;> (ext i j; fin_cases i; fin_cases j; simp [Matrix.mul_apply]; try norm_num)
+example : plumb .gamma [[2], [4]] 1 3 = some ⟨"gamma", [[2], [1 / 4]], (3, 1)⟩ := by decide +kernel
 
 end CuqiVerif.C05
